@@ -10,6 +10,7 @@ from geneticengine.algorithms.gp.operators.combinators import ParallelStep
 from geneticengine.algorithms.gp.operators.combinators import SequenceStep
 from geneticengine.algorithms.gp.operators.crossover import GenericCrossoverStep
 from geneticengine.algorithms.gp.operators.elitism import ElitismStep
+from geneticengine.algorithms.gp.operators.initializers import StandardInitializer
 from geneticengine.algorithms.gp.operators.mutation import GenericMutationStep
 from geneticengine.algorithms.gp.operators.novelty import NoveltyStep
 from geneticengine.algorithms.gp.operators.selection import LexicaseSelection
@@ -91,7 +92,7 @@ class SimpleGP:
         self.problem = self.process_problem(fitness_function, minimize)
         budget = self.build_budget(target_fitness, max_time, max_evaluations)
         representation_internal = self.process_representation(representation, grammar, max_depth)
-        population_initializer = self.process_population_initializer(initial_population)
+        population_initializer = self.process_population_initializer(initial_population, representation_internal)
 
         step = self.build_step(
             population_size,
@@ -155,8 +156,13 @@ class SimpleGP:
             "stack": StackBasedGGGPRepresentation,
         }[representation]
 
-        decider = MaxDepthDecider(self.random, grammar, max_depth)
+        decider = MaxDepthDecider(self.random, grammar, max_depth)  # also rejects an infeasible max_depth right here
 
+        # the five representations do not share a constructor signature
+        if representation_class is DynamicStructuredGrammaticalEvolutionRepresentation:
+            return representation_class(grammar=grammar, max_depth=max_depth)
+        if representation_class is StackBasedGGGPRepresentation:
+            return representation_class(grammar=grammar)
         return representation_class(grammar=grammar, decider=decider)
 
     def build_budget(self, target_fitness, max_time, max_evaluations):
@@ -166,14 +172,17 @@ class SimpleGP:
         else:
             return AnyOf(TargetFitness(target_fitness), base)
 
-    def process_population_initializer(self, initial_population: list[Any] | None = None):
+    def process_population_initializer(self, initial_population: list[Any] | None = None, representation=None):
+        # GrowInitializer builds trees directly: the genotype-based representations create their own genotypes
+        tree_based = representation is None or isinstance(representation, TreeBasedRepresentation)
+        backup = GrowInitializer() if tree_based else StandardInitializer()
         if initial_population:
             return InjectInitialPopulationWrapper(
                 [genotype for genotype in initial_population],
-                GrowInitializer(),
+                backup,
             )
         else:
-            return GrowInitializer()
+            return backup
 
     def build_step(
         self,
